@@ -279,3 +279,18 @@ fn bounded_glue_fwd_n2_h4() {
     let f = crate::memmem::Finder::new(&n);
     assert!(f.find(h) == naive_find(h, &n));
 }
+
+// the fn-pointer pairing of Searcher::new / Searcher::find on the SSE2 strategy (AVX2 stubbed unavailable): haystacks
+// below the vector minimum go through searcher_kind_sse2's Rabin-Karp fallback
+#[kani::proof]
+#[kani::unwind(6)]
+#[kani::stub(crate::arch::x86_64::avx2::packedpair::Finder::is_available, avail_false)]
+fn bounded_glue_fwd_sse2_n2_h4() {
+    let hb: [u8; 4] = kani::any();
+    let hl: usize = kani::any();
+    kani::assume(hl <= 4);
+    let h = &hb[..hl];
+    let n: [u8; 2] = kani::any();
+    let f = crate::memmem::Finder::new(&n);
+    assert!(f.find(h) == naive_find(h, &n));
+}
